@@ -19,7 +19,7 @@ func init() {
 			"R2 inside the retry loop URL and header of the outgoing request are re-derived from pristine snapshots in every iteration before anything that mutates them; " +
 			"R3 the buffered body is rewound in every iteration before the forward call, and buffering is decided by exactly {non-zero try duration}; " +
 			"R4 the backend status is written unmodified, the Trailer announcement precedes WriteHeader, the body copy precedes the trailer copy; " +
-			"R5 the decision table of createUpstreamRequest (Request.WithContext modelled as the shallow copy it is; 48 cases over Connection header, prior X-Forwarded-For, parsable address, empty body; other headers unknown): the client's own header map is never modified, no hop-by-hop header and none named in Connection is forwarded while end-to-end headers are, X-Forwarded-For is the prior values followed by the client address, the body is nil exactly for an empty body. Since round 4: R6 configured header changes: parseBlock records every header_upstream/header_downstream line (repeated +Field lines all kept, per direction), mutateHeadersByRules appends / deletes / sets with one expansion. Since round 5: R2/R3 are decided along the proxy traces (Proxy.ServeHTTP evaluated with scripted backends: every attempt starts from the pristine URL, header and rewound body). R7 header rules from NewHost to their application in both directions. Since round 6: R5 with two Connection header lines; R7 through the code's own NewStaticUpstreams (plain / regex-only / mixed rules per direction); R3: buffered exactly when retries are enabled. Since round 7: R6 several rules on one field under both walks of the rule map, regex replacement on every line of a repeated field; R5 a hop-by-hop field whose first line is empty; R4 a flush precedes forced (unannounced) trailers.",
+			"R5 the decision table of createUpstreamRequest (Request.WithContext modelled as the shallow copy it is; 48 cases over Connection header, prior X-Forwarded-For, parsable address, empty body; other headers unknown): the client's own header map is never modified, no hop-by-hop header and none named in Connection is forwarded while end-to-end headers are, X-Forwarded-For is the prior values followed by the client address, the body is nil exactly for an empty body. Since round 4: R6 configured header changes: parseBlock records every header_upstream/header_downstream line (repeated +Field lines all kept, per direction), mutateHeadersByRules appends / deletes / sets with one expansion. Since round 5: R2/R3 are decided along the proxy traces (Proxy.ServeHTTP evaluated with scripted backends: every attempt starts from the pristine URL, header and rewound body). R7 header rules from NewHost to their application in both directions. Since round 6: R5 with two Connection header lines; R7 through the code's own NewStaticUpstreams (plain / regex-only / mixed rules per direction); R3: buffered exactly when retries are enabled. Since round 7: R6 several rules on one field under both walks of the rule map, regex replacement on every line of a repeated field; R5 a hop-by-hop field whose first line is empty; R4 a flush precedes forced (unannounced) trailers. Since round 8: R8 copyHeader's copy shares no line slot with the original.",
 		notDecided: "byte-for-byte equality of bodies; path joining arithmetic (singleJoiningSlash); header multiset equality — runtime relations.",
 	})
 }
